@@ -181,14 +181,14 @@ Section Found.
     apply column_step_records; [exact Hsd| | | |]; cbv zeta.
     all: set (st' := column_step eqc thr cfg rawref s1 n c2 j st) in *.
     all: destruct Hsd' as (HcolD & Hlen & _); destruct Hsl' as (HcolL & _ & _).
-    all: rewrite znth_nth by lia.
+    all: try rewrite znth_nth by lia.
     all: pose proof (colL_nth eqc thr cfg s1 s2 (col st') j 0 m HcolL ltac:(lia) ltac:(unfold zlen in *; lia)) as HL; replace (0 + m) with re in HL by lia; rewrite Hjq in HL.
     all: pose proof (occ_cost _ HL) as Hcost.
     - pose proof (thr_bound (eff_len cfg rawref s1 re re)). lia.
     - pose proof (colD_nth eqc thr cfg s1 s2 (col st') j 0 m HcolD ltac:(lia) ltac:(unfold zlen in *; lia)) as (Hent & _).
       destruct Hent as (_ & _ & Ho & _). apply Ho. exact sir.
     - lia.
-    - rewrite <- Hre. lia.
+    - pose proof occ_tol as Ht. rewrite Hre in Ht. lia.
   Qed.
 
   Lemma columns_hit : forall qs j st,
@@ -224,7 +224,7 @@ Section Found.
 
   Lemma column_step_FL c2 j st : SD (j - 1) st -> FL (column_step eqc thr cfg rawref s1 n c2 j st).
   Proof.
-    intros (Hcol & Hlen & Hlast & HB & Hbest). unfold column_step.
+    clear stop_q sir. intros (Hcol & Hlen & Hlast & HB & Hbest). unfold column_step.
     destruct (col st) as [|c0 olds] eqn:Ecol; [rewrite zlen_nil in Hlen; pose proof (zlen_nonneg s1); lia|].
     set (new0 := mkE _ _ _).
     pose proof (fill_skip eqc cfg (Z.to_nat (last st)) c2 s1 olds c0 new0 (ovar st)) as Hsk.
@@ -255,4 +255,292 @@ Section Found.
       specialize (IH (j + 1) (column_step eqc thr cfg rawref s1 n c2 j st)). replace (j + 1 - 1) with j in IH by lia.
       apply IH; auto; try lia. rewrite Htl at 1. rewrite Hu. do 2 f_equal. lia.
   Qed.
+
+  (** ---- the occurrence is reported *)
+  Theorem locate_core_found :
+    let max_n := if start_in_query cfg then n else Z.min n (m + k) in
+    (re = m /\ 1 <= qe <= max_n) \/ (qe = n /\ max_n = n /\ 1 <= n /\ (stop_in_ref cfg = true \/ re = m)) ->
+    locate_core eqc thr cfg rawref s1 s2 <> None.
+  Proof.
+    intros max_n Hcase. unfold locate_core. rewrite stop_q. fold max_n.
+    set (qsl := firstn _ _).
+    set (st0 := mkS _ _ _ _ _ _).
+    assert (Hn : 0 <= n) by apply zlen_nonneg.
+    assert (Hm : 0 <= m) by apply zlen_nonneg.
+    assert (Hmaxn : max_n <= n) by (subst max_n; destruct (start_in_query cfg); lia).
+    destruct (locate_core_init eqc thr cfg s1 s2 IND_pos k_nonneg) as (Hsd0 & Hsl0).
+    fold st0 in Hsd0, Hsl0.
+    assert (Hmax0 : 0 <= max_n) by (subst max_n; destruct (start_in_query cfg); lia).
+    assert (Hqsl : qsl = firstn (length qsl) (skipn (Z.to_nat (0 + 1 - 1)) s2)).
+    { subst qsl. replace (0 + 1 - 1) with 0 by lia. rewrite firstn_length.
+      destruct (Nat.le_ge_cases (Z.to_nat (max_n - 0)) (length (skipn (Z.to_nat 0) s2))) as [Hle|Hge].
+      - rewrite Nat.min_l by exact Hle. reflexivity.
+      - rewrite Nat.min_r by exact Hge. rewrite !firstn_all2; auto. }
+    assert (Hqz : zlen qsl = max_n).
+    { subst qsl. unfold zlen. rewrite firstn_length, skipn_length. unfold zlen in *. lia. }
+    set (st := columns eqc thr cfg rawref s1 n qsl (0 + 1) st0).
+    assert (Hfin : b_cost (if max_n =? n
+                           then last_column thr cfg rawref s1 n (ovar st)
+                                  (filter (fun ie : Z * entry => (if stop_in_ref cfg then 0 else m) <=? fst ie)
+                                     (rev (firstn (Z.to_nat (last_filled st + 1)) (indexed (col st))))) (best st)
+                           else best st) <> nb).
+    { destruct Hcase as [[Hre Hqe]|(Hqe & Hmx & Hn1 & Hstop)].
+      - (* found in the column loop *)
+        assert (Hhas : has_best st).
+        { subst st. apply columns_hit; auto; try lia. all: try (rewrite Hqz; lia). }
+        destruct (max_n =? n); [apply last_column_keeps; exact Hhas | exact Hhas].
+      - (* found in the last column *)
+        rewrite Hmx, Z.eqb_refl.
+        destruct (Z.eq_dec (b_cost (best st)) nb) as [Hnb|Hhas]; [|apply last_column_keeps; exact Hhas].
+        assert (Hqlen : 0 + 1 - 1 + zlen qsl <= n) by lia.
+        destruct (columns_L eqc thr cfg rawref s1 s2 IND_pos k_nonneg qsl (0 + 1) st0 Hsd0 Hsl0 ltac:(lia) Hqlen Hqsl) as (_ & jf & HcolL & Hex). cbv zeta in *.
+        destruct (columns_d eqc thr cfg rawref s1 s2 IND_pos qsl (0 + 1) st0 Hsd0 ltac:(lia) Hqlen Hqsl) as (_ & jf' & (HcolD & Hlen) & Hex'). cbv zeta in *.
+        fold st in HcolL, Hex, HcolD, Hlen, Hex'.
+        assert (Hne : exact_best s1 (best st) -> False).
+        { intros [H0 _]. rewrite H0 in Hnb. unfold no_best in Hnb. lia. }
+        destruct Hex as [Hex|Hjf]; [contradiction|]. destruct Hex' as [Hex'|Hjf']; [contradiction|].
+        assert (Hjfn : jf = n) by lia. assert (Hjfn' : jf' = n) by lia. rewrite Hjfn in HcolL. rewrite Hjfn' in HcolD.
+        pose proof (columns_FL qsl (0 + 1) st0 Hsd0 ltac:(lia) Hqlen Hqsl ltac:(left; intros E; rewrite E in Hqz; unfold zlen in Hqz; cbn in Hqz; lia)) as (Hlf & Hstale).
+        fold st in Hlf, Hstale.
+        set (e := nth (Z.to_nat re) (col st) dummy).
+        pose proof (colL_nth eqc thr cfg s1 s2 (col st) n 0 re HcolL ltac:(lia) ltac:(unfold zlen in *; lia)) as HL.
+        replace (0 + re) with re in HL by lia. fold e in HL. rewrite <- Hqe in HL. pose proof (occ_cost e HL) as Hcost.
+        pose proof (colD_nth eqc thr cfg s1 s2 (col st) n 0 re HcolD ltac:(lia) ltac:(unfold zlen in *; lia)) as (Hent & _).
+        fold e in Hent. destruct Hent as (_ & _ & Ho & _). specialize (Ho sir).
+        assert (Hck : cost e <= k) by (pose proof (thr_bound (eff_len cfg rawref s1 re re)); lia).
+        assert (Hrelf : re <= last_filled st).
+        { destruct (Z_le_dec re (last_filled st)) as [H|H]; [exact H|]. exfalso.
+          pose proof (Forall_skipn_get (fun e => k < cost e) dummy (col st) (Z.to_nat (last_filled st + 1)) (Z.to_nat re) Hstale
+                        ltac:(unfold zlen in *; lia)) as Hk. cbv beta in Hk. fold e in Hk. lia. }
+        apply (last_column_hit (ovar st) re e); [|exact Ho|exact occ_ov|lia].
+        apply filter_In. split.
+        + apply -> in_rev. unfold indexed.
+          pose proof (In_indexed_firstn (col st) 0 (Z.to_nat (last_filled st + 1)) (Z.to_nat re) ltac:(lia) ltac:(unfold zlen in *; lia)) as Hin.
+          replace (0 + Z.of_nat (Z.to_nat re)) with re in Hin by lia. exact Hin.
+        + cbn [fst]. apply Z.leb_le. destruct Hstop as [->| ->]; [lia|]. destruct (stop_in_ref cfg); lia. }
+    match goal with |- context [if ?c then None else _] => destruct c eqn:E end; [apply Z.eqb_eq in E; contradiction|].
+    match goal with |- context [if ?c then _ else _] => destruct c end; discriminate.
+  Qed.
 End Found.
+
+(** ---- the variant for alignments that must end at the end of the query (stop_in_query = false:
+    anchored and non-internal 3' adapters): the DP starts at column q0 = max(0, n - m - k) *)
+From CV Require Import Proofs.AlignOptTail.
+
+Lemma ed_len_diff eqc IND a b c : 1 <= IND -> ed eqc IND a b c -> Z.abs (zlen a - zlen b) <= c.
+Proof.
+  intros Hi H. induction H; rewrite ?zlen_app, ?zlen_cons, ?zlen_nil; try lia.
+  all: unfold zlen in *; rewrite ?app_length; cbn [length]; lia.
+Qed.
+
+Section FoundTail.
+  Variable eqc : Z -> Z -> bool.
+  Variable thr : Z -> Z.
+  Variable cfg : acfg.
+  Variable rawref : list Z.
+  Variable s1 s2 : list Z.
+
+  Notation m := (zlen s1).
+  Notation n := (zlen s2).
+  Notation k := (thr m).
+  Notation IND := (indel_cost cfg).
+  Hypothesis IND_pos : 1 <= indel_cost cfg.
+  Hypothesis k_nonneg : 0 <= k.
+  Hypothesis thr_bound : forall L, thr L <= k.
+  Hypothesis k_le_m : k <= m.
+  Hypothesis sir : start_in_ref cfg = false.
+  Hypothesis siq : start_in_query cfg = true.
+  Hypothesis stop_q : stop_in_query cfg = false.
+  Notation ed := (ed eqc IND).
+  Notation nb := (no_best s1 n).
+
+  Variables p re c : Z.
+  Hypothesis occ_range : 0 <= p <= n /\ 0 <= re <= m.
+  Hypothesis occ_ed : ed (zslice s1 0 re) (zslice s2 p n) c.
+  Hypothesis occ_tol : c <= thr (eff_len cfg rawref s1 re re).
+  Hypothesis occ_ov : min_overlap cfg <= re.
+  Hypothesis occ_stop : stop_in_ref cfg = true \/ re = m.
+  Hypothesis n_pos : 1 <= n.
+  Hypothesis m_pos : 1 <= m.
+
+  Theorem locate_core_found_tail : locate_core eqc thr cfg rawref s1 s2 <> None.
+  Proof.
+    assert (Hn : 0 <= n) by apply zlen_nonneg.
+    assert (Hm : 0 <= m) by apply zlen_nonneg.
+    assert (Hck : c <= k) by (pose proof (thr_bound (eff_len cfg rawref s1 re re)); lia).
+    remember (Z.max 0 (n - m - k)) as q0 eqn:Hq0.
+    assert (q0_range : 0 <= q0 <= n) by lia.
+    assert (Hp : q0 <= p).
+    { pose proof (ed_len_diff eqc IND _ _ _ IND_pos occ_ed) as Hd. rewrite !zslice_length in Hd by lia. lia. }
+    unfold locate_core. rewrite stop_q, siq, sir. rewrite <- Hq0.
+    set (qsl := firstn _ _).
+    set (st0 := mkS _ _ _ _ _ _).
+    assert (Hnz : forall cnt lo t d, (t < cnt)%nat -> nth t (zrange lo cnt) d = lo + Z.of_nat t).
+    { induction cnt as [|cn IH]; intros lo t d Ht; [lia|]. destruct t as [|t']; cbn [zrange nth]; [lia|]. rewrite IH by lia. lia. }
+    pose proof (init_state_d eqc thr cfg s1 s2 IND_pos k_nonneg q0 q0_range) as Hsd0. rewrite sir in Hsd0. fold st0 in Hsd0.
+    assert (HinitT : forall cnt lo, 0 <= lo -> lo + Z.of_nat cnt <= m + 1 -> colT eqc thr cfg s1 s2 q0 q0 lo (map (init_entry cfg q0) (zrange lo cnt))).
+    { induction cnt as [|cn IH]; intros lo Hlo Hc; cbn [zrange map]; constructor; [|apply IH; lia].
+      unfold init_entry. rewrite sir, siq. split; cbn [cost origin].
+      - intros qs' c' Hq He. assert (qs' = q0) by lia. subst qs'. rewrite zslice_empty in He.
+        pose proof (ed_len_l eqc IND _ _ _ He eq_refl) as Hl. rewrite zslice_length in Hl by lia. unfold AlignOptTail.capk. lia.
+      - unfold Wp; cbn [cost origin]. intros _ Ho. nia. }
+    assert (Hst0 : ST eqc thr cfg s1 s2 q0 (q0 + 1 - 1) st0).
+    { replace (q0 + 1 - 1) with q0 by lia. subst st0. unfold ST; cbn [col last].
+      split; [apply HinitT; [lia | unfold zlen; lia]|].
+      destruct (Z_le_gt_dec m (k + 1)) as [Hle|Hgt]; [left; lia|]. right.
+      unfold init_column. apply (Forall_skipn_nth (fun e => k < cost e) dummy). intros t Ht. rewrite map_length, zrange_length in Ht.
+      rewrite (nth_indep _ dummy (init_entry cfg q0 0)) by (rewrite map_length, zrange_length; lia).
+      rewrite map_nth, Hnz by lia. unfold init_entry. rewrite sir, siq. cbn [cost]. nia. }
+    assert (Hqsl : qsl = firstn (length qsl) (skipn (Z.to_nat (q0 + 1 - 1)) s2)).
+    { subst qsl. replace (q0 + 1 - 1) with q0 by lia. rewrite firstn_length.
+      destruct (Nat.le_ge_cases (Z.to_nat (n - q0)) (length (skipn (Z.to_nat q0) s2))) as [Hle|Hge].
+      - rewrite Nat.min_l by exact Hle. reflexivity.
+      - rewrite Nat.min_r by exact Hge. rewrite !firstn_all2; auto. }
+    assert (Hqz : zlen qsl = n - q0).
+    { subst qsl. unfold zlen. rewrite firstn_length, skipn_length. unfold zlen in *. lia. }
+    destruct (columns_T eqc thr cfg rawref s1 s2 IND_pos k_nonneg siq q0 q0_range stop_q qsl (q0 + 1) st0 Hsd0 Hst0 ltac:(lia) ltac:(lia) Hqsl)
+      as ((HcolD & Hlen & _) & (HcolT & _) & Hbest). cbv zeta in *.
+    pose proof (columns_FL eqc thr cfg rawref s1 s2 IND_pos qsl (q0 + 1) st0 Hsd0 ltac:(lia) ltac:(lia) Hqsl
+                  ltac:(left; intros E; rewrite E in Hqz; change (zlen (@nil Z)) with 0 in Hqz; lia)) as (Hlf & Hstale).
+    set (st := columns eqc thr cfg rawref s1 n qsl (q0 + 1) st0) in *.
+    rewrite Z.eqb_refl.
+    assert (Hjf : q0 + 1 - 1 + zlen qsl = n) by lia. rewrite Hjf in HcolD, HcolT.
+    set (cells := filter _ _).
+    set (e := nth (Z.to_nat re) (col st) dummy).
+    pose proof (colT_nth eqc thr cfg s1 s2 q0 (col st) n 0 re HcolT ltac:(lia) ltac:(unfold zlen in *; lia)) as (HL & _).
+    replace (0 + re) with re in HL by lia. fold e in HL.
+    assert (Hcost : cost e <= c).
+    { specialize (HL p c ltac:(lia) occ_ed). unfold AlignOptTail.capk in HL. lia. }
+    pose proof (colD_nth eqc thr cfg s1 s2 (col st) n 0 re HcolD ltac:(lia) ltac:(unfold zlen in *; lia)) as (Hent & _).
+    fold e in Hent. destruct Hent as (_ & _ & Ho & _). specialize (Ho sir).
+    assert (Hrelf : re <= last_filled st).
+    { destruct (Z_le_dec re (last_filled st)) as [H|H]; [exact H|]. exfalso.
+      pose proof (Forall_skipn_get (fun e => k < cost e) dummy (col st) (Z.to_nat (last_filled st + 1)) (Z.to_nat re) Hstale
+                    ltac:(unfold zlen in *; lia)) as Hk. cbv beta in Hk. fold e in Hk. lia. }
+    assert (Hfin : b_cost (last_column thr cfg rawref s1 n (ovar st) cells (best st)) <> nb).
+    { apply (last_column_hit thr cfg rawref s1 s2 thr_bound k_le_m (ovar st) re e); [|exact Ho|exact occ_ov|lia].
+      subst cells. apply filter_In. split.
+      - apply -> in_rev. unfold indexed.
+        pose proof (In_indexed_firstn (col st) 0 (Z.to_nat (last_filled st + 1)) (Z.to_nat re) ltac:(lia) ltac:(unfold zlen in *; lia)) as Hin.
+        replace (0 + Z.of_nat (Z.to_nat re)) with re in Hin by lia. exact Hin.
+      - cbn [fst]. apply Z.leb_le. destruct occ_stop as [->| ->]; [lia|]. destruct (stop_in_ref cfg); lia. }
+    match goal with |- context [if ?c then None else _] => destruct c eqn:E end; [apply Z.eqb_eq in E; contradiction|].
+    match goal with |- context [if ?c then _ else _] => destruct c end; discriminate.
+  Qed.
+End FoundTail.
+
+(** ---- Aligner.locate with its translation tables: every admissible occurrence within the
+    tolerance is reported, for every flag set that cannot skip the beginning of the reference *)
+Theorem locate_found thr cfg wq ref query p re qe c :
+  1 <= indel_cost cfg -> start_in_ref cfg = false ->
+  stop_in_query cfg = true \/ start_in_query cfg = true ->
+  1 <= zlen ref -> 0 <= thr (zlen ref) -> (forall L, thr L <= thr (zlen ref)) -> thr (zlen ref) <= zlen ref ->
+  (p = 0 \/ start_in_query cfg = true) ->
+  (re = zlen ref \/ (stop_in_ref cfg = true /\ qe = zlen query)) ->
+  (qe = zlen query \/ stop_in_query cfg = true) ->
+  0 <= p < qe -> qe <= zlen query -> 0 <= re <= zlen ref -> min_overlap cfg <= re ->
+  ed (loc_eqc cfg wq) (indel_cost cfg) (zslice (loc_s1 cfg wq ref) 0 re) (zslice (loc_s2 cfg wq query) p qe) c ->
+  c <= thr (eff_len cfg ref (loc_s1 cfg wq ref) re re) ->
+  locate thr cfg wq ref query <> None.
+Proof.
+  intros Hi Hsir Hmode Hm Hk Hb Hkm Hstart Hsr Hsq Hp Hqe Hre Hov Hed Htol. unfold locate.
+  fold (loc_s1 cfg wq ref). fold (loc_s2 cfg wq query). fold (loc_eqc cfg wq).
+  pose proof (loc_s1_len cfg wq ref) as H1. pose proof (loc_s2_len cfg wq query) as H2.
+  set (s1 := loc_s1 cfg wq ref) in *. set (s2 := loc_s2 cfg wq query) in *.
+  assert (Hck : c <= thr (zlen ref)) by (pose proof (Hb (eff_len cfg ref s1 re re)); lia).
+  pose proof (ed_len_diff _ _ _ _ _ Hi Hed) as Hd. rewrite !zslice_length in Hd by (rewrite ?H1, ?H2; lia).
+  destruct (stop_in_query cfg) eqn:Esq.
+  - apply (locate_core_found (loc_eqc cfg wq) thr cfg ref s1 s2) with (p := p) (re := re) (qe := qe) (c := c); rewrite ?H1, ?H2; auto; try lia.
+    cbv zeta. destruct Hsr as [Hrm|[Hsr Hqn]].
+    + left. split; [exact Hrm|]. destruct (start_in_query cfg) eqn:Esiq; [lia|]. destruct Hstart as [->|?]; [lia | discriminate].
+    + right. split; [exact Hqn|]. split; [|split; [lia | left; exact Hsr]].
+      destruct (start_in_query cfg) eqn:Esiq; [reflexivity|]. destruct Hstart as [->|?]; [lia | discriminate].
+  - destruct Hmode as [?|Hsiq]; [discriminate|]. destruct Hsq as [Hqn|?]; [|discriminate]. subst qe.
+    apply (locate_core_found_tail (loc_eqc cfg wq) thr cfg ref s1 s2) with (p := p) (re := re) (c := c); rewrite ?H1, ?H2; auto; try lia.
+    destruct Hsr as [Hrm|[Hsr _]]; [right; exact Hrm | left; exact Hsr].
+Qed.
+
+(** ---- the adapter classes: regular 3' (Back), non-internal 3', anchored 3' and anchored 5' with
+    indels -- every admissible occurrence within the tolerance makes match_to report a match *)
+From CV Require Import Generated.Flags Model.Adapters.
+
+Theorem match_to_found thr ad read p re qe c :
+  uses_comparer ad = false -> class_reversed (a_type ad) = false -> start_in_ref (ad_cfg ad) = false ->
+  1 <= zlen (a_seq ad) -> 0 <= thr (zlen (a_seq ad)) -> (forall L, thr L <= thr (zlen (a_seq ad))) -> thr (zlen (a_seq ad)) <= zlen (a_seq ad) ->
+  (p = 0 \/ start_in_query (ad_cfg ad) = true) ->
+  (re = zlen (a_seq ad) \/ (stop_in_ref (ad_cfg ad) = true /\ qe = zlen read)) ->
+  (qe = zlen read \/ stop_in_query (ad_cfg ad) = true) ->
+  0 <= p < qe -> qe <= zlen read -> 0 <= re <= zlen (a_seq ad) -> a_min_overlap ad <= re ->
+  ed (loc_eqc (ad_cfg ad) (a_wq ad)) (indel_cost (ad_cfg ad))
+     (zslice (loc_s1 (ad_cfg ad) (a_wq ad) (a_seq ad)) 0 re) (zslice (loc_s2 (ad_cfg ad) (a_wq ad) (ad_query ad read)) p qe) c ->
+  c <= thr (eff_len (ad_cfg ad) (a_seq ad) (loc_s1 (ad_cfg ad) (a_wq ad) (a_seq ad)) re re) ->
+  match_to thr ad read <> None.
+Proof.
+  intros Hcmp Hrev Hsir Hm Hk Hb Hkm Hstart Hsr Hsq Hp Hqe Hre Hov Hed Htol.
+  assert (Hql : zlen (ad_query ad read) = zlen read).
+  { unfold ad_query. destruct (class_upper_first (a_type ad)); [apply zlen_map | reflexivity]. }
+  assert (Hmode : stop_in_query (ad_cfg ad) = true \/ start_in_query (ad_cfg ad) = true).
+  { unfold ad_cfg, cfg_of, aligner_flags. cbn [stop_in_query start_in_query].
+    destruct (a_type ad); destruct (a_force_anywhere ad); vm_compute; auto. }
+  assert (Hloc : locate thr (ad_cfg ad) (a_wq ad) (a_seq ad) (ad_query ad read) <> None).
+  { apply locate_found with (p := p) (re := re) (qe := qe) (c := c); rewrite ?Hql; auto.
+    apply ad_indel_cost_pos. }
+  unfold match_to, raw_locate. fold (ad_cfg ad). unfold ad_query in Hloc. unfold uses_comparer in Hcmp.
+  destruct (a_type ad); cbn [class_reversed class_upper_first] in *;
+    unfold cls_FrontAdapter_reversed, cls_BackAdapter_reversed, cls_AnywhereAdapter_reversed, cls_RightmostFrontAdapter_reversed,
+           cls_NonInternalFrontAdapter_reversed, cls_NonInternalBackAdapter_reversed, cls_AnywhereAdapter_upper_first in *;
+    try discriminate.
+  all: try (destruct (a_indels ad); [|discriminate]).
+  all: match goal with |- context [match ?l with Some _ => _ | None => None end] => destruct l as [[[[[[? ?] ?] ?] ?] ?]|] end; [discriminate | contradiction].
+Qed.
+
+(** 'rightmost' 5' adapters are aligned on the reversed strings with the flags of a regular 3'
+    adapter; in the coordinates of the strings as given: adapter[rs, m) against read[qs, qe), the
+    adapter possibly cut off at the beginning of the read (rs > 0 only with qs = 0) *)
+Theorem match_to_found_rightmost thr ad read rs qs qe c :
+  a_type ad = RightmostFront -> a_force_anywhere ad = false ->
+  1 <= zlen (a_seq ad) -> 0 <= thr (zlen (a_seq ad)) -> (forall L, thr L <= thr (zlen (a_seq ad))) -> thr (zlen (a_seq ad)) <= zlen (a_seq ad) ->
+  (rs = 0 \/ qs = 0) -> 0 <= qs < qe -> qe <= zlen read -> 0 <= rs <= zlen (a_seq ad) -> a_min_overlap ad <= zlen (a_seq ad) - rs ->
+  ed (loc_eqc (ad_cfg ad) (a_wq ad)) (indel_cost (ad_cfg ad))
+     (zslice (loc_s1 (ad_cfg ad) (a_wq ad) (a_seq ad)) rs (zlen (a_seq ad))) (zslice (loc_s2 (ad_cfg ad) (a_wq ad) read) qs qe) c ->
+  c <= thr (eff_len (ad_cfg ad) (rev (a_seq ad)) (loc_s1 (ad_cfg ad) (a_wq ad) (rev (a_seq ad))) (zlen (a_seq ad) - rs) (zlen (a_seq ad) - rs)) ->
+  match_to thr ad read <> None.
+Proof.
+  intros Hty Hforce Hm Hk Hb Hkm Hpl Hq Hqe Hrs Hov Hed Htol.
+  set (m := zlen (a_seq ad)) in *. set (n := zlen read) in *.
+  assert (Hzr : zlen (rev (a_seq ad)) = m) by apply zlen_rev.
+  assert (Hzq : zlen (rev read) = n) by apply zlen_rev.
+  pose proof (loc_s1_len (ad_cfg ad) (a_wq ad) (a_seq ad)) as H1. pose proof (loc_s2_len (ad_cfg ad) (a_wq ad) read) as H2.
+  fold m in H1. fold n in H2.
+  assert (Hflags : start_in_ref (ad_cfg ad) = false /\ start_in_query (ad_cfg ad) = true /\ stop_in_ref (ad_cfg ad) = true /\ stop_in_query (ad_cfg ad) = true).
+  { unfold ad_cfg, cfg_of, aligner_flags. rewrite Hty, Hforce. cbn [start_in_ref start_in_query stop_in_ref stop_in_query]. vm_compute. auto. }
+  destruct Hflags as (Fsr & Fsq & Fer & Feq).
+  assert (Hloc : locate thr (ad_cfg ad) (a_wq ad) (rev (a_seq ad)) (rev read) <> None).
+  { apply locate_found with (p := n - qe) (re := m - rs) (qe := n - qs) (c := c); rewrite ?Hzr, ?Hzq; auto; try lia.
+    - apply ad_indel_cost_pos.
+    - destruct Hpl as [->| ->]; [left; lia | right; split; [exact Fer | lia]].
+    - apply ed_rev in Hed. rewrite loc_s1_rev, loc_s2_rev.
+      assert (E1 : zslice (rev (loc_s1 (ad_cfg ad) (a_wq ad) (a_seq ad))) 0 (m - rs) = rev (zslice (loc_s1 (ad_cfg ad) (a_wq ad) (a_seq ad)) rs m)).
+      { rewrite <- (rev_involutive (zslice (rev _) 0 (m - rs))). f_equal. rewrite zslice_rev by (rewrite ?H1; lia). rewrite H1. f_equal; lia. }
+      assert (E2 : zslice (rev (loc_s2 (ad_cfg ad) (a_wq ad) read)) (n - qe) (n - qs) = rev (zslice (loc_s2 (ad_cfg ad) (a_wq ad) read) qs qe)).
+      { rewrite <- (rev_involutive (zslice (rev _) (n - qe) (n - qs))). f_equal. rewrite zslice_rev by (rewrite ?H2; lia). rewrite H2. f_equal; lia. }
+      rewrite E1, E2. exact Hed. }
+  unfold match_to, raw_locate. fold (ad_cfg ad). rewrite Hty. cbn [class_reversed]. unfold cls_RightmostFrontAdapter_reversed.
+  destruct (locate thr (ad_cfg ad) (a_wq ad) (rev (a_seq ad)) (rev read)) as [[[[[[? ?] ?] ?] ?] ?]|]; [discriminate | contradiction].
+Qed.
+
+(** helpers for stating concrete instances *)
+Lemma ed_mismatches eqc IND : forall a b, length a = length b -> ed eqc IND a b (mismatches eqc a b).
+Proof.
+  induction a as [|x a IH]; intros [|y b] Hl; try discriminate; cbn [mismatches]; [constructor|].
+  injection Hl as Hl. destruct (eqc x y) eqn:E.
+  - apply ed_cons_match; [apply IH; exact Hl | exact E].
+  - replace (1 + mismatches eqc a b) with (mismatches eqc a b + 1) by lia. apply ed_cons_sub. apply IH. exact Hl.
+Qed.
+
+Lemma thr_of_bounds tab lo hi : Forall (fun x => lo <= x <= hi) tab -> lo <= 0 <= hi -> forall L, lo <= thr_of tab L <= hi.
+Proof.
+  intros Hall H0 L. unfold thr_of, znth. destruct (L <? 0); [exact H0|].
+  destruct (nth_in_or_default (Z.to_nat L) tab 0) as [Hin|Hd]; [|rewrite Hd; exact H0].
+  rewrite Forall_forall in Hall. apply Hall. exact Hin.
+Qed.
